@@ -332,15 +332,19 @@ class EptMapResult:
                     b"".join(f.pack() for f in t),
                 ]
             )
-            padding = -(len(b_t)) % 4
+            # Each tower is aligned to 8 bytes from the start of the stub as
+            # expected by unpack, the data before the towers is 8 byte aligned.
+            b_tower += b"\x00" * (-len(b_tower) % 8)
             b_tower += b"".join(
                 [
                     len(b_t).to_bytes(8, byteorder="little"),
                     len(b_t).to_bytes(4, byteorder="little"),
                     b_t,
-                    b"\x00" * padding,
                 ]
             )
+
+        # The status is only aligned to 4 bytes.
+        b_tower += b"\x00" * (-len(b_tower) % 4)
 
         return b"".join(
             [
